@@ -11,18 +11,21 @@ from beziers.line import Line
 
 ID = "C11"
 TOPICS = ["Inter", "Lookup", "Roots", "Affine", "Eval"]
-LEAN_TARGETS = ["BezierVerif.Props.C05M", "BezierVerif.Props.C11"]
+LEAN_TARGETS = ["BezierVerif.Props.C05M", "BezierVerif.Props.C11", "BezierVerif.Props.C11B"]
 TV_DEFS = ["ray_line"]
 RULE = ("closed paths: rectangles, ellipses, circles, random polygons, random contours mixing lines, quadratics and cubics (simple star-shaped and self-intersecting), "
         "doubled contours (K6 family); integer and float coordinates; query points uniform in the padded bounding box, outside the box on all four sides, and level "
         "with on-curve nodes / horizontal edges / curve y-extremes (K1 family); kept only when farther than 1e-3 of the extent from the finely flattened outline "
         "(+ flattening margin); reference parity by an exact slanted ray in Q (direction re-drawn until it meets no node and no tangency; Sturm isolation); "
         "non-trivial = the reference ray crosses the path at least once; distinct = distinct (path, point)")
-UNPROVED = ["for curved segments the crossing lists come from C05's curve/line machinery: completeness of the Cardano branch is sampled (C05)",
+UNPROVED = ["the even-odd theorem is proved for closed chains of LINES in clear position (levels exact, parameters outside the 2e-7 tolerance bands); for curved segments the same structure needs per-segment crossing counts = straddle parity (sampled)",
+            "for curved segments the crossing lists come from C05's curve/line machinery: completeness of the Cardano branch is sampled (C05)",
             "float evaluation of the crossing parameters near the 2e-7 window ends (sampled; excluded by the distance rule)",
             "sign(tangent.y) = sign of the derivative's y (normalisation by a positive length; atan2/sin for lines: Polar lemmas)"]
-ASSUMPTIONS = ["query level differs from every node / extremum level (else K1)", "no two segments cross a ray at the same point (else K6)"]
-LEVEL_TEXT = ("theorems: winding_parity (the reported number has the parity of the number of distinct crossing points on either ray whenever the two rays agree in parity — "
+ASSUMPTIONS = ["clear position (C11B.Clear): verticality / horizontality of edges decided exactly, |slope| >= 2e-7 for non-vertical edges, no parameter inside a 2e-7 band", "query level differs from every node / extremum level (else K1)", "no two segments cross a ray at the same point (else K6)"]
+LEVEL_TEXT = ("theorems: polygon_even_odd (closed chains of lines in clear position: pointIsInside is true exactly when an odd number of edges straddle the query level and cross it "
+              "left of the point — derived from the regenerated code through ray_line_eq_model / ray_hit (the ray crossing rule), straddle_even (a closed chain crosses a level an even "
+              "number of times), collect_flat (the dict holds every crossing once when none coincide), hit_left / hit_right; winding_parity (the reported number has the parity of the number of distinct crossing points on either ray whenever the two rays agree in parity — "
               "whatever the signs, so pointIsInside never depended on the stale-variable defect F9), closed_chain_even / ray_split (closed chains of lines, query level "
               "different from every vertex level: left + right crossing counts = number of straddling edges, which is even), inside_iff_odd_left, signed_sum_zero "
               "(up- and down-crossings of a closed chain cancel: winding 0 when one ray sees every crossing), winding_zero_no_hits, insertHit lemmas (dict semantics), "
